@@ -52,6 +52,12 @@ CLAIMED = {
             "All weights (incl. out of range), dependency ids, flags and target ids 1..2^31-1; "
             "round trip client -> frame -> server event; 'changes no state' is decided by a "
             "generic object-graph snapshot equality.", "7/C23"),
+    'C09': ("symbolic execution of stream-id allocation and checking with stream ids, promised "
+            "ids and both high-water marks as solver variables over a hash-free map standing in "
+            "for conn.streams; how forgotten streams closed is a solver choice",
+            "All ids up to 2^31-1 and all high-water marks; acceptance, the least-free-id rule, "
+            "exhaustion, and the error class (stream error / STREAM_CLOSED / PROTOCOL_ERROR) for "
+            "unusable peer ids are compared with an RFC 7540 5.1.1 predicate.", "7/C09"),
 }
 
 NOT_YET = {}
